@@ -33,7 +33,7 @@ FreshBits == FoldLeft(LAMBDA a, k : a + BitOf(k), 0, SetToSeq(fresh))
 Card(fn) == Cardinality(DOMAIN fn)
 
 TInit ==
-  /\ content = <<>> /\ files = <<>>
+  /\ content = <<>> /\ files = <<>> /\ bad = <<>> /\ err = FALSE
   /\ db = EmptyDB /\ requests = <<>> /\ modules = <<>> /\ pend = <<>> /\ temp = NoDB /\ pc = "idle"
   /\ fresh = {} /\ cache = [k \in CacheKinds |-> <<>>]
   /\ loaded = <<>> /\ ranges = <<>> /\ requested = {} /\ ans = <<>> /\ hist = <<>>
@@ -44,6 +44,7 @@ TCase ==
   /\ IsE(l, "Case")
   /\ files' = [x \in DOMAIN Tr[l].files |-> FileOfJson(Tr[l].files[x])]
   /\ ranges' = [x \in DOMAIN Tr[l].files |-> <<0, 0>>]
+  /\ bad' = [x \in DOMAIN Tr[l].files |-> IF "bad" \in DOMAIN Tr[l] THEN Tr[l].bad[x] ELSE "ok"] /\ err' = FALSE
   /\ content' = <<>> /\ db' = EmptyDB /\ requests' = <<>> /\ modules' = <<>> /\ pend' = <<>> /\ temp' = NoDB /\ pc' = "idle"
   /\ fresh' = {} /\ cache' = [k \in CacheKinds |-> <<>>]
   /\ loaded' = <<>> /\ requested' = {} /\ ans' = <<>> /\ hist' = <<>>
@@ -51,10 +52,10 @@ TCase ==
 
 TRequest ==
   /\ IsE(l, "Request") /\ Tr[l].file \in DOMAIN files
-  /\ LET md == IF Tr[l].next > Tr[l].first THEN "mod" ELSE "db" IN
+  /\ LET md == IF Tr[l].next > Tr[l].first \/ Tr[l].first # 0 THEN "mod" ELSE "db" IN
      /\ Request(Tr[l].file, md)
-     /\ md = "mod" => /\ Tr[l].next - Tr[l].first = FileCount(files[Tr[l].file])
-                      /\ Tr[l].first = db.next
+     /\ md = "mod" => /\ Tr[l].next - Tr[l].first = FileCount(files[Tr[l].file]) + (IF bad[Tr[l].file] = "stale" THEN 1 ELSE 0)
+                      /\ Tr[l].first = (IF Tr[l].next > Tr[l].first THEN db.next ELSE 1)
   /\ Tr[l].dbnext = db'.next /\ Tr[l].nreq = Len(requests') /\ Tr[l].nmod = Len(modules')
   /\ l' = l + 1
 
@@ -71,9 +72,20 @@ TReadNew ==
   /\ Tr[l].nm = Card(temp'.m) /\ Tr[l].ne = Card(temp'.e) /\ Tr[l].ns = Card(temp'.s)
   /\ l' = l + 1
 
+\* the file of the request is missing: no event of ours (a LoadError event, if the tree has one, is consumed)
+TMissing ==
+  /\ l <= N + 1 /\ LoadMissing
+  /\ l' = IF IsE(l, "LoadError") THEN l + 1 ELSE l
+
+\* read() returned false after read_new: the module def is out of date
+TStale ==
+  /\ IsE(l, "LoadError") /\ pc = "remap" /\ Tr[l].file = Head(pend).lib
+  /\ RemapTemp /\ temp' = NoDB
+  /\ l' = l + 1
+
 TLoad ==
   /\ IsE(l, "Load") /\ pc = "remap" /\ Tr[l].file = Head(pend).lib
-  /\ RemapTemp
+  /\ RemapTemp /\ temp' # NoDB
   /\ Tr[l].bare = (IF Head(pend).first = 0 /\ Head(pend).next = 0 THEN 1 ELSE 0)
   /\ Tr[l].tnext = temp'.next /\ Tr[l].dbnext = db'.next
   /\ Tr[l].wfirst = (IF DOMAIN temp'.w = {} THEN 0 ELSE ranges'[Head(pend).lib][1])
@@ -92,7 +104,7 @@ TMerge ==
 \* load_latest returned; the query that triggered it is answered
 TIdle ==
   /\ pc = "answer" /\ pc' = "idle"
-  /\ UNCHANGED <<content, files, db, requests, modules, pend, temp, fresh, cache, loaded, ranges, requested, ans, hist, l>>
+  /\ UNCHANGED <<content, files, bad, err, db, requests, modules, pend, temp, fresh, cache, loaded, ranges, requested, ans, hist, l>>
 
 \* lookup(): the table is fresh
 TLookupFresh ==
@@ -114,13 +126,13 @@ TLookupStale ==
      /\ Tr[l].size = Cardinality(DOMAIN tbl)
      /\ Tr[l + 1].hit = (IF Tr[l + 1].name \in DOMAIN tbl THEN 1 ELSE 0)
      /\ Tr[l].fresh = FreshBits + BitOf(k)
-  /\ UNCHANGED <<content, files, db, requests, modules, pend, temp, pc, loaded, ranges, requested, ans, hist>>
+  /\ UNCHANGED <<content, files, bad, err, db, requests, modules, pend, temp, pc, loaded, ranges, requested, ans, hist>>
   /\ l' = l + 2
 
 \* the driver dumped the library's database by raw index: it must be the spec's database
 TDump ==
   /\ IsE(l, "Dump") /\ pc = "idle" /\ requests = <<>>
-  /\ DBOfJson(Tr[l].db) = db
+  /\ DBOfJson(Tr[l].db) = db /\ Tr[l].err = (IF err THEN 1 ELSE 0)
   /\ UNCHANGED vars /\ l' = l + 1
 
 TForeign ==
@@ -130,7 +142,7 @@ TForeign ==
 
 TDone == l = N + 1 /\ UNCHANGED tvars
 
-TNext == TCase \/ TRequest \/ TLoadLatest \/ TReadNew \/ TLoad \/ TMerge \/ TIdle \/ TLookupFresh \/ TLookupStale
+TNext == TCase \/ TRequest \/ TLoadLatest \/ TMissing \/ TReadNew \/ TStale \/ TLoad \/ TMerge \/ TIdle \/ TLookupFresh \/ TLookupStale
          \/ TDump \/ TForeign \/ TDone
 
 TSpec == TInit /\ [][TNext]_tvars
